@@ -24,7 +24,7 @@ EXPLANATION = (
     'buffer_pages with page count ctr, reset to 0 only after a successful flush, final flush iff ctr > 0. Byte-exact coverage for all '
     'geometries is arithmetic over runtime values and is decided only through these forms.')
 ASSUMPTIONS = ['the bootloader target writes page_count pages starting at target_page from buffer pages 0..page_count-1']
-FLOORS = {'R1': 4, 'R2': 5, 'R3': 6, 'R4': 3, 'R5': 7, 'R6': 7}
+FLOORS = {'R1': 4, 'R2': 6, 'R3': 6, 'R4': 3, 'R5': 7, 'R6': 7}
 
 
 def check(ctx):
@@ -73,6 +73,14 @@ def check(ctx):
     pk = [c for c in walk_own(wf.node) if isinstance(c, ast.Call) and dotted(c.func) == 'struct.pack']
     ok = len(pk) == 1 and [norm(a) for a in pk[0].args] == ["'<BBHHH'", wf.params[1], '24', wf.params[2], wf.params[3], wf.params[4]]
     ctx.inst('R2', wf, 'command-layout', ok, 'flash-write command = <BBHHH (target, 0x18, buffer page, flash page, page count); found %s' % [norm(c) for c in pk])
+
+    snd = gw.find(lambda q: method_call(q, 'send_packet'))
+    drains = [n for n in gw.nodes if n.kind == 'while' and any(method_call(c, 'receive_packet') and c.args and fold_in(wf, c.args[0]) == 0 for c in ast.walk(n.ast) if isinstance(c, ast.Call))
+              and not any(method_call(c, 'send_packet') for c in ast.walk(n.ast) if isinstance(c, ast.Call))]
+    ok = len(snd) == 1 and len(drains) >= 1 and any(gw.dominates(d, snd[0][0]) for d in drains)
+    ctx.inst('R2', wf, 'stale-replies-drained-before-command', ok,
+             'replies are matched on (target, 0x18) only, so replies still queued from an earlier (re-sent) write must be drained by a non-blocking receive loop before the command is sent; '
+             'otherwise a stale positive reply answers a later failed write')
 
     # ---- R3 ---------------------------------------------------------------------------
     for fn in ('write_flash', 'read_flash'):
@@ -188,6 +196,8 @@ def check(ctx):
 
 
 VARIANTS = [
+    M('R2', CL, "        pk = self.link.receive_packet(0)\n        while pk is not None:\n            pk = self.link.receive_packet(0)\n\n        retry_counter = 5\n        # print \"Flasing", "        retry_counter = 5\n        # print \"Flasing", 'downlink not drained before a write command'),
+    B(CL, "        pk = self.link.receive_packet(0)\n        while pk is not None:\n            pk = self.link.receive_packet(0)\n\n        retry_counter = 5\n        # print \"Flasing", "        while self.link.receive_packet(0) is not None:\n            pass\n\n        retry_counter = 5\n        # print \"Flasing", 'compact drain loop'),
     M('R1', BL, "        if len(image) > ((t_data.flash_pages - start_page) *\n                         t_data.page_size):", "        if len(image) > ((t_data.flash_pages - t_data.start_page) *\n                         t_data.page_size):", 'override ignored in the size test'),
     M('R1', BL, "            raise Exception('Not enough space to flash the image file')\n", "            pass\n", 'too-large image not refused'),
     M('R2', BL, "                if not self._cload.write_flash(t_data.addr, 0,\n                                               start_page + i - (ctr - 1),\n                                               ctr):", "                self._cload.write_flash(t_data.addr, 0, start_page + i - (ctr - 1), ctr)\n                if False:", 'flash-write result ignored'),
